@@ -15,7 +15,7 @@ theorem append_scaffold_is_source (s othr : Scaffold) (gap : Option Gap) :
   | none => rfl
   | some g =>
     rw [ImpSmall.appendRows_some]
-    cases h : (!s.rows.isEmpty) <;> simp [h, bind, Except.bind]
+    cases h : (!s.rows.isEmpty) <;> simp [bind, Except.bind]
 
 /-- the generated function runs: a join gap goes between two non-empty scaffolds … -/
 example :
@@ -25,13 +25,13 @@ example :
       (some { length := 200, gapType := ['s'] })
     = .ok { name := ['a'], rank := 3,
             rows := [.frag { name := ['c'], start := 1, stop := 5, strand := 1 }, .gap { length := 200, gapType := ['s'] },
-                     .frag { name := ['d'], start := 2, stop := 9, strand := -1 }] } := by decide
+                     .frag { name := ['d'], start := 2, stop := 9, strand := -1 }] } := by rfl
 
 /-- … and is dropped when `self` has no rows yet -/
 example :
     Gen.Imp.Scaffold_append_scaffold { name := ['a'] }
       { name := ['b'], rows := [.frag { name := ['d'], start := 2, stop := 9, strand := -1 }] }
       (some { length := 200, gapType := ['s'] })
-    = .ok { name := ['a'], rows := [.frag { name := ['d'], start := 2, stop := 9, strand := -1 }] } := by decide
+    = .ok { name := ['a'], rows := [.frag { name := ['d'], start := 2, stop := 9, strand := -1 }] } := by rfl
 
 end AgpTpf.C07
